@@ -268,6 +268,13 @@ def emit_fn(unit, mod, scope_key, it, entries, indent, in_trait_impl, self_is_ne
         rec['reason'] = ent.note
         unit.items.append(rec)
         return
+    demoted = False
+    if full_key in DEMOTE and ent.mode == 'verify':
+        # the body on this tree is outside the Verus subset: keep the contract for the callers, do not verify the body
+        import copy
+        ent = copy.copy(ent)
+        ent.mode = 'trusted'
+        demoted = True
     rewrites = set()
     attrs = emit_attrs(it.attrs, rewrites)
     sig_quals = [q for q in f.quals if q in ('const', 'unsafe')]
@@ -311,7 +318,8 @@ def emit_fn(unit, mod, scope_key, it, entries, indent, in_trait_impl, self_is_ne
     body_start = unit.lineno()
     unit.add(body.strip('\n'))
     unit.add(indent + '}')
-    rec.update({'mode': {'verify': 'verified', 'external': 'external_body (contract discharged by Kani)',
+    rec.update({'mode': 'demoted (body not ingestible by Verus on this tree)' if demoted else
+                        {'verify': 'verified', 'external': 'external_body (contract discharged by Kani)',
                          'trusted': 'external_body (trusted)'}[ent.mode],
                 'lines': [start, unit.lineno() - 1], 'body_line': body_start,
                 'rewrites': sorted(rewrites), 'fn': f.name, 'module': mod, 'scope': scope_key,
@@ -561,7 +569,12 @@ def add_ghost_fn_items(unit, mod, text, start, origin):
                            'lines': [start + i, start + end], 'contract_origin': origin})
 
 
-def build_unit(repo, contracts=None, extra_files=()):
+DEMOTE = set()
+
+
+def build_unit(repo, contracts=None, extra_files=(), demote=()):
+    global DEMOTE
+    DEMOTE = set(demote)
     contracts = contracts or os.path.join(VERIF, 'contracts')
     unit = Unit()
     unit.add('#![allow(unused_imports, dead_code, unused_variables, unused_mut, unused_unsafe, non_snake_case, unused_parens)]')
